@@ -65,7 +65,11 @@ def int_rnn(c):
   else:
     xin = x
   c0 = jnp.asarray(np.array(c['c0'], dtype=np.int64))[..., None] if c.get('c0') is not None else None
-  kw = dict(seq_lengths=lens, return_carry=True, time_major=c['time_major'], reverse=c['reverse'], keep_order=c['keep_order'])
+  eff = dict(return_carry=True, time_major=c['time_major'], reverse=c['reverse'], keep_order=c['keep_order'])
+  # each flag is either passed at call time (overriding whatever the constructor was given) or left to the constructor
+  at_call = c.get('at_call', list(eff))
+  ctor = {k: (c.get('ctor', {}).get(k, not v) if k in at_call else v) for k, v in eff.items()}
+  kw = dict(seq_lengths=lens, **{k: v for k, v in eff.items() if k in at_call})
   res = {}
 
   def back(y):
@@ -75,13 +79,13 @@ def int_rnn(c):
     return y[..., 0].tolist()
 
   def li():
-    rnn = nn.RNN(IntCell(c['a'], c['b'], c['c']))
+    rnn = nn.RNN(IntCell(c['a'], c['b'], c['c']), **(ctor if 'at_call' in c else {}))
     (carry, y), _ = rnn.init_with_output(jax.random.key(0), xin, initial_carry=c0, **kw)
     return {'carry': np.asarray(carry)[..., 0].tolist(), 'y': back(y)}
   res['linen'] = safe(li)
 
   def nx():
-    rnn = nnx.RNN(NIntCell(c['a'], c['b'], c['c']))
+    rnn = nnx.RNN(NIntCell(c['a'], c['b'], c['c']), **(ctor if 'at_call' in c else {}))
     carry, y = rnn(xin, initial_carry=c0, **kw)
     return {'carry': np.asarray(carry)[..., 0].tolist(), 'y': back(y)}
   res['nnx'] = safe(nx)
